@@ -217,7 +217,7 @@ PROPS['C02'] = {
 _C03_SCEN = [  # (scenario, threads, quick cases, thorough cases)
     ('future_mt', 5, 12000, 600000), ('future_async_mt', 5, 12000, 600000), ('mutex_mt', 4, 10000, 500000), ('mutex_pool_handoff', 1, 20000, 400000),
     ('queue_mt', 5, 8000, 400000), ('lqueue_mt', 5, 8000, 400000), ('shared_future_mt', 4, 10000, 500000),
-    ('scheduler_threads', 1, 6000, 200000), ('scheduler_stop_race', 1, 6000, 200000),
+    ('scheduler_threads', 1, 6000, 200000), ('scheduler_stop_race', 1, 6000, 200000), ('pool_mt', 4, 12000, 400000),
 ]
 PROPS['C03'] = {
     'technique': 'ThreadSanitizer (happens-before race detection) over the shared multi-threaded scenario library; guarded fence annotation',
@@ -232,7 +232,7 @@ PROPS['C03'] = {
              'scheduler threads, ... see variants) under TSan; non-trivial and distinct as defined by the owning scenario.'),
     'ignore_key': r'^C03\|[a-z_]+\|monitor:',
     'min_nontrivial': [200, 2000],
-    'jobs': [J(s, 'c03.cpp', 'tsan', [q, t], scenario=s, threads=th) for (s, th, q, t) in _C03_SCEN]
+    'jobs': [J(s, 'c03.cpp', 'tsan', [q, t], scenario=s, threads=th, detect_leaks=0) for (s, th, q, t) in _C03_SCEN]
             + [J(s + '_assert', 'c03.cpp', 'tsanassert', [0, t // 2], scenario=s, threads=th, tiers=(T,)) for (s, th, q, t) in _C03_SCEN]
             + [J(s + '_clang', 'c03.cpp', 'ctsan', [0, t // 2], scenario=s, threads=th, tiers=(T,)) for (s, th, q, t) in _C03_SCEN],
 }
@@ -320,5 +320,28 @@ PROPS['C20'] = {
     'jobs': [
         J('attrib', 'c20.cpp', 'attrib', [30000, 2000000], scenario='alloc_free_programs', threads=1),
         J('attrib_clang', 'c20.cpp', 'cattrib', [0, 1000000], scenario='alloc_free_programs', threads=1, tiers=(T,)),
+    ],
+}
+
+PROPS['C11'] = {
+    'technique': 'stress rounds on a fresh pool racing submissions against stop()/destruction; per-job (ran, cancelled) counters, worker identity, quiescence watchdog',
+    'level_text': ('Every round builds a fresh pool of 1-3 workers; 1-2 threads submit 1-3 jobs each of kinds {co_await pool, co_await pool(awaitable), '
+                   'run(fn), run(async), run_detached, resume(suspend_point), co_await thread_pool::current()} while stop() is issued by the '
+                   'coordinator, a second thread, from inside a job on a worker, or only by the destructor. At quiescence (pool destroyed) every job '
+                   'must have (ran, cancelled) in {(1,0),(0,1)}, have run on a thread for which is_current(pool) holds, returned futures must be '
+                   'resolved (value iff ran), job closures destroyed exactly once; stop()/destructor must return (quiescence watchdog). Two open '
+                   'known findings (resume(suspend_point) and pool(awaitable) on a stopped pool) are matched by call site.'),
+    'level_note': ('LeakSanitizer is off for this check because the two open findings leak coroutine frames by definition; every frame content is '
+                   'accounted by instance counters instead. Destroying a pool while a worker-initiated stop() is still running is outside the '
+                   'statement and is not driven (the harness waits for that stop() to return).'),
+    'rule': ('case = one round (fresh pool, 1-3 workers, 1-2 submitters x 1-3 jobs, stop origin and delay drawn, stall plan over pool hook sites incl. '
+             'worker threads); non-trivial = a stop() raced with the submissions (not destructor-only); distinct = distinct (workers, stop origin, job '
+             'kinds, number executed, number cancelled).'),
+    'min_nontrivial': [100, 1000],
+    'require_classes': ['pool_mt:jobs_executed', 'pool_mt:jobs_cancelled', 'pool_mt:stop_origin_pool_worker', 'pool_mt:rounds_with_both_executed_and_cancelled'],
+    'jobs': [
+        J('mt_asan', 'c11.cpp', 'asan', [12000, 600000], scenario='pool_mt', detect_leaks=0),
+        J('mt_rel', 'c11.cpp', 'rel', [25000, 1500000], scenario='pool_mt'),
+        J('mt_crel', 'c11.cpp', 'crel', [0, 800000], scenario='pool_mt', tiers=(T,)),
     ],
 }
